@@ -126,10 +126,13 @@ impl<V> HashStrMap<V> {
 
     /// Insert using a FastStr key directly (compatibility)
     pub fn insert_fast_str(&mut self, key: FastStr, value: V) -> Result<Option<V>> {
-        if let Some(s) = key.as_str() {
-            self.insert(s, value)
-        } else {
-            self.insert(&String::from_utf8_lossy(key.as_bytes()), value)
+        match key.as_str() {
+            Some(s) => self.insert(s, value),
+            // A key that is not valid UTF-8 cannot be a key of this String-keyed map: the lossy
+            // conversion merged distinct keys and get_by_fast_str never found them again.
+            None => Err(crate::error::ZiporaError::invalid_data(
+                "HashStrMap key must be valid UTF-8",
+            )),
         }
     }
 
